@@ -7,7 +7,7 @@ from ..common import plain
 from .c05 import env_of
 
 PLAN = {
-    "quick": {"shards": 8, "cases": 500, "min_nontrivial": 1500, "budget_s": 240},
+    "quick": {"shards": 8, "cases": 1500, "min_nontrivial": 5000, "budget_s": 300},
     "thorough": {"shards": 16, "cases": 4000, "min_nontrivial": 30000, "budget_s": 1500},
 }
 RULE = ("schemas with required fields (with and without defaults), schema-level and field-level validators (pass / fail "
